@@ -4,6 +4,18 @@
  * library's own octet_ring (uint8_t) and harness instantiations for uint16_t
  * and uint32_t.  In every reached state the observers size/empty/full and both
  * iterators are run to completion and compared with a bounded deque.
+ *
+ * The statement speaks about get/put/clear/override, size/empty/full and the
+ * iterators -- not about how the object encodes its state.  The implementation
+ * part of a state is therefore the object's octet image (object zeroed, then
+ * NAME##_init; the storage pointer is blanked in the key and re-pointed at a
+ * fresh exact-size block when the state is restored) plus the storage cells.
+ * No clause looks at head/tail/index values: a slot outside the storage is
+ * observed by ASan on the exact-size block.  The only member the harness names
+ * is `data` (it has to, to relocate the storage).
+ *
+ * Roots: init followed by override(off), and init followed by override(on), so
+ * that the model's flag is known without assuming what init chooses.
  */
 #include "mc.h"
 
@@ -26,14 +38,36 @@ RING_BUFFER_ITER(ring32, uint32_t)
 enum { OP_PUT_A, OP_PUT_B, OP_GET, OP_CLEAR, OP_OVR_ON, OP_OVR_OFF, NOPS };
 static const char *OPN[NOPS] = { "put(A)", "put(B)", "get", "clear", "override(on)", "override(off)" };
 
+#define IMPLMAX 96 /* octets of the largest ring object this harness can key on */
+
 struct key {
-    uint8_t cap, head, tail, ovr;
+    uint8_t cap;
+    uint8_t impl[IMPLMAX]; /* object image, storage pointer blanked */
     uint32_t cell[MAXCAP];
     uint8_t qlen, movr; /* model: length, override flag */
     uint32_t q[MAXCAP]; /* model: oldest first */
 };
 
-static bool saw_wrap, saw_evict, saw_drop;
+static bool saw_evict, saw_drop;
+
+static const char *
+hexof(char *buf, size_t bn, const uint8_t *p, size_t n)
+{
+    size_t l = 0;
+    buf[0] = 0;
+    for (size_t i = 0; i < n && l + 3 < bn; ++i)
+        l += (size_t)snprintf(buf + l, bn - l, "%02x", p[i]);
+    return buf;
+}
+
+/* id of the root a state descends from (0: override off, 1: override on) */
+static int64_t
+root_of(const struct mc_set *s, int64_t id)
+{
+    while (id >= 0 && s->parent[id] >= 0)
+        id = s->parent[id];
+    return id;
+}
 
 #define EXPLORER(NAME, TYPE, VA, VB)                                                          \
     static void check_observers_##NAME(const NAME *c, const struct key *m, size_t cap)        \
@@ -57,10 +91,6 @@ static bool saw_wrap, saw_evict, saw_drop;
                     mc_fail(cl, "iterator not done after %zu steps", steps);                  \
                     break;                                                                    \
                 }                                                                             \
-                if (it.index >= cap) {                                                        \
-                    mc_fail(cl, "iterator index %zu outside capacity %zu at step %zu", it.index, cap, steps); \
-                    break;                                                                    \
-                }                                                                             \
                 TYPE v = NAME##_inspect(c, &it);                                              \
                 mc_log("iter dir=%d step=%zu index=%zu value=%lx", dir, steps, it.index, (unsigned long)v); \
                 if (steps >= m->qlen) {                                                       \
@@ -77,48 +107,74 @@ static bool saw_wrap, saw_evict, saw_drop;
                 mc_fail(cl, "iterator finished after %zu steps, queue holds %u", steps, m->qlen); \
         }                                                                                     \
     }                                                                                         \
+    /* implementation part of a key: object image with the storage pointer blanked, cells */  \
+    static void snapshot_##NAME(struct key *k, const NAME *c, const TYPE *mem, size_t cap)    \
+    {                                                                                         \
+        memset(k->impl, 0, sizeof k->impl);                                                   \
+        memcpy(k->impl, c, sizeof *c);                                                        \
+        memset(k->impl + offsetof(NAME, data), 0, sizeof c->data);                            \
+        for (size_t i = 0; i < MAXCAP; ++i)                                                   \
+            k->cell[i] = (i < cap) ? mem[i] : 0;                                              \
+    }                                                                                         \
+    static void restore_##NAME(NAME *c, TYPE *mem, const struct key *k, size_t cap)           \
+    {                                                                                         \
+        for (size_t i = 0; i < cap; ++i)                                                      \
+            mem[i] = (TYPE)k->cell[i];                                                        \
+        memcpy(c, k->impl, sizeof *c);                                                        \
+        c->data = mem;                                                                        \
+    }                                                                                         \
     static void explore_##NAME(size_t cap)                                                    \
     {                                                                                         \
+        if (sizeof(NAME) > IMPLMAX)                                                           \
+            mc_broken(#NAME " object of %zu octets does not fit the key (IMPLMAX)", sizeof(NAME)); \
         struct mc_set set;                                                                    \
         mc_set_init(&set);                                                                    \
-        struct key k0;                                                                        \
-        memset(&k0, 0, sizeof k0);                                                            \
-        {                                                                                     \
+        for (int root = 0; root < 2; ++root) {                                                \
+            struct key k0;                                                                    \
+            memset(&k0, 0, sizeof k0);                                                        \
+            k0.cap = (uint8_t)cap;                                                            \
             TYPE *mem = mc_exact(cap * sizeof(TYPE));                                         \
             memset(mem, 0xee, cap * sizeof(TYPE));                                            \
             NAME c;                                                                           \
+            memset(&c, 0, sizeof c);                                                          \
             NAME##_init(&c, mem, cap);                                                        \
-            k0.cap = (uint8_t)cap;                                                            \
-            k0.head = (uint8_t)c.head;                                                        \
-            k0.tail = (uint8_t)c.tail;                                                        \
-            k0.ovr = c.override_if_full;                                                      \
-            for (size_t i = 0; i < cap; ++i)                                                  \
-                k0.cell[i] = mem[i];                                                          \
-            mc_case(#NAME " cap=%zu initial state", cap);                                     \
-            check_observers_##NAME(&c, &k0, cap);                                             \
-            mc_end(true, "initial");                                                          \
+            if (root == 0) {                                                                  \
+                mc_case(#NAME " cap=%zu initial state", cap);                                 \
+                check_observers_##NAME(&c, &k0, cap);                                         \
+                mc_end(true, "initial");                                                      \
+            }                                                                                 \
+            mc_case(#NAME " cap=%zu init then override(%s)", cap, root ? "on" : "off");       \
+            mc_trans(1);                                                                      \
+            NAME##_override_if_full(&c, root == 1);                                           \
+            k0.movr = (uint8_t)root;                                                          \
+            if (c.data != mem)                                                                \
+                mc_fail("C19/geometry-unchanged", "storage pointer changed");                 \
+            else                                                                              \
+                check_observers_##NAME(&c, &k0, cap);                                         \
+            snapshot_##NAME(&k0, &c, mem, cap);                                               \
+            /* both roots are always enqueued (ids 0 and 1; the keys differ at least          \
+             * in the model's flag) */                                                        \
+            mc_set_add(&set, &k0, sizeof k0, -1, -1, NULL);                                   \
             free(mem);                                                                        \
+            mc_end(true, "override");                                                         \
         }                                                                                     \
-        mc_set_add(&set, &k0, sizeof k0, -1, -1, NULL);                                       \
         for (int64_t cur = 0; cur < (int64_t)set.n; ++cur) {                                  \
             struct key k;                                                                     \
             memcpy(&k, mc_set_key(&set, cur), sizeof k);                                      \
             char path[200] = "";                                                              \
+            char hx[2 * IMPLMAX + 1] = "";                                                    \
+            const int64_t rootid = root_of(&set, cur);                                        \
             for (int op = 0; op < NOPS; ++op) {                                               \
                 if (mc_would_run() && path[0] == 0)                                           \
                     mc_set_path(&set, cur, path, sizeof path);                                \
-                mc_case(#NAME " cap=%zu state=(head=%u,tail=%u,ovr=%u,qlen=%u) path=[%s] op=%d:%s", \
-                        cap, k.head, k.tail, k.ovr, k.qlen, path, op, OPN[op]);               \
+                if (mc_would_run())                                                           \
+                    hexof(hx, sizeof hx, k.impl, sizeof(NAME));                               \
+                mc_case(#NAME " cap=%zu root=init+override(%s) path=[%s] state=(object=%s,qlen=%u,override=%u) op=%d:%s", \
+                        cap, rootid ? "on" : "off", path, hx, k.qlen, k.movr, op, OPN[op]);   \
                 mc_trans(1);                                                                  \
                 TYPE *mem = mc_exact(cap * sizeof(TYPE));                                     \
-                for (size_t i = 0; i < cap; ++i)                                              \
-                    mem[i] = (TYPE)k.cell[i];                                                 \
                 NAME c;                                                                       \
-                c.data = mem;                                                                 \
-                c.datasize = cap;                                                             \
-                c.head = k.head;                                                              \
-                c.tail = k.tail;                                                              \
-                c.override_if_full = k.ovr;                                                   \
+                restore_##NAME(&c, mem, &k, cap);                                             \
                 struct key m = k; /* model part advanced below */                             \
                 const char *outcome = "?";                                                    \
                 switch (op) {                                                                 \
@@ -173,28 +229,21 @@ static bool saw_wrap, saw_evict, saw_drop;
                 }                                                                             \
                 for (size_t i = m.qlen; i < MAXCAP; ++i)                                      \
                     m.q[i] = 0; /* canonical model: no stale tail */                          \
-                mc_log("after: head=%zu tail=%zu ovr=%d", c.head, c.tail, c.override_if_full); \
                 bool sane = true;                                                             \
-                if (c.data != mem || c.datasize != cap) {                                     \
-                    mc_fail("C19/geometry-unchanged", "data/datasize changed");               \
-                    sane = false;                                                             \
-                } else if (c.head > cap || c.tail > cap) {                                    \
-                    mc_fail("C19/indices-in-range", "head=%zu tail=%zu cap=%zu", c.head, c.tail, cap); \
+                if (c.data != mem) {                                                          \
+                    mc_fail("C19/geometry-unchanged", "storage pointer changed");             \
                     sane = false;                                                             \
                 }                                                                             \
                 if (sane) {                                                                   \
+                    snapshot_##NAME(&m, &c, mem, cap);                                        \
+                    if (mc.active) {                                                          \
+                        char hx2[2 * IMPLMAX + 1];                                            \
+                        mc_log("after: object=%s", hexof(hx2, sizeof hx2, m.impl, sizeof(NAME))); \
+                    }                                                                         \
                     check_observers_##NAME(&c, &m, cap);                                      \
-                    if (c.tail != cap && c.tail >= c.head && m.qlen > 1)                      \
-                        saw_wrap = true;                                                      \
                 }                                                                             \
-                if (sane && !mc.cur_failed) {                                                 \
-                    m.head = (uint8_t)c.head;                                                 \
-                    m.tail = (uint8_t)c.tail;                                                 \
-                    m.ovr = c.override_if_full;                                               \
-                    for (size_t i = 0; i < cap; ++i)                                          \
-                        m.cell[i] = mem[i];                                                   \
+                if (sane && !mc.cur_failed)                                                   \
                     mc_set_add(&set, &m, sizeof m, cur, op, NULL);                            \
-                }                                                                             \
                 free(mem);                                                                    \
                 mc_end(!(op == OP_CLEAR && k.qlen == 0), outcome);                            \
             }                                                                                 \
